@@ -247,8 +247,15 @@ pub fn shrink_value(v: &Value) -> Vec<Value> {
 /// endgames (for the deeper fixed searches), terminal positions.
 pub fn pick_position(rng: &mut Rng, sparse: bool, promo: bool) -> crate::rules::Pos {
     if promo {
-        // one in three of these is a position with more than 128 legal moves instead
-        return if rng.chance(1, 3) { gen::many_queens_position(rng) } else { gen::promotion_choice_position(rng) };
+        // the special families: more than 128 legal moves, a single legal move at the root
+        // (whatever shortcut an engine takes for a forced reply must not change the value),
+        // promotion choices
+        return match rng.below(6) {
+            0 | 1 => gen::many_queens_position(rng),
+            2 => gen::single_reply_position(rng).unwrap_or_else(|| gen::promotion_choice_position(rng)),
+            3 => gen::stalemate_trick_position(rng).unwrap_or_else(|| gen::promotion_choice_position(rng)),
+            _ => gen::promotion_choice_position(rng),
+        };
     }
     if sparse {
         return if rng.chance(1, 2) { gen::sparse_position(rng) } else { gen::advanced_pawn_position(rng) };
@@ -331,6 +338,9 @@ pub fn run(ctx: &Ctx) -> i32 {
             if promo {
                 res.probes.add("promotion_choice_positions", 1);
             }
+            if bench.reference.gen.generate_moves(&bench.pos.as_ref().unwrap().board).len() == 1 {
+                res.probes.add("positions_with_a_single_legal_move", 1);
+            }
             if bench.reference.gen.generate_moves(&bench.pos.as_ref().unwrap().board).len() > 128 {
                 res.probes.add("positions_with_more_than_128_legal_moves", 1);
             }
@@ -389,7 +399,7 @@ pub fn run(ctx: &Ctx) -> i32 {
     });
     let ev = Evidence {
         level: "exploration",
-        rule: "Positions: seeded playouts of the rules model at all stages, constructed tactical/terminal positions, sparse endgames; kept when the unpruned reference fits its node budget. Of five sims two search a general position with find_best_move to depth 1..3, one a promotion-choice position (pawn on the 7th, both kings near the promotion square: stalemate tricks and mating under-promotions) to depth 2..3 (a third of these are instead positions with more than 128 legal moves - five to eight queens - to depth 1..2; a quarter of the promotion positions carry a halfmove clock of 96..99), two run one fixed-depth search at depth 4..5 on a sparse position (accepted only when no deeper cached result was reused), each fault-free under two key sets and under five buggified-cache configurations (probe-miss 1%/10%/50%, store-drop 0/10%/30%). Oracle: norm(score)==M and the move attains M. A case = (position, depth, mode, fault configuration) that was compared; all are non-trivial.".into(),
+        rule: "Positions: seeded playouts of the rules model at all stages, constructed tactical/terminal positions, sparse endgames; kept when the unpruned reference fits its node budget. Of five sims two search a general position with find_best_move to depth 1..3, one a promotion-choice position (pawn on the 7th, both kings near the promotion square: stalemate tricks and mating under-promotions) to depth 2..3 (a third of these are instead positions with more than 128 legal moves - five to eight queens - to depth 1..2, a sixth middlegame positions with a single legal move at the root, a sixth positions in which promoting to a queen stalemates; a quarter of the promotion positions carry a halfmove clock of 96..99), two run one fixed-depth search at depth 4..5 on a sparse position (accepted only when no deeper cached result was reused), each fault-free under two key sets and under five buggified-cache configurations (probe-miss 1%/10%/50%, store-drop 0/10%/30%). Oracle: norm(score)==M and the move attains M. A case = (position, depth, mode, fault configuration) that was compared; all are non-trivial.".into(),
         extra: serde_json::Map::new(),
         assumptions: vec![
             "reference M takes the engine's move generator, make_move, static evaluation and full-window quiescence as given".into(),
